@@ -20,7 +20,7 @@ class ConcRunner:
        cfg: cache settings + 'shared' (one Cache object for all clients) +
             'init': [ops run before the scheduled part by a setup client]"""
 
-    def __init__(self, cfg, program, strategy, seed=0, lockers=None, fault=None):
+    def __init__(self, cfg, program, strategy, seed=0, lockers=None, fault=None, inject=None):
         import diskcache
         self.dc = diskcache
         self.cfg = cfg
@@ -44,6 +44,7 @@ class ConcRunner:
         self.sched = sched.Scheduler(self.dir, self.snapshot, strategy,
                                      busy_budget=cfg.get('busy_budget', 2))
         self.sched.fault = fault
+        self.sched.inject = inject
         self.shared = None
         if cfg.get('shared'):
             self.shared = diskcache.Cache(self.dir, timeout=self.timeout)
@@ -193,6 +194,12 @@ class ConcRunner:
                     self.sched.emit({'ev': 'call', 'c': cid, 'op': name, 'a': a, 'now': self.clock.tick})
                     ret = self.api.call(cache, name, a, op.get('form', 0))
                     self.sched.emit({'ev': 'ret', 'c': cid, 'ret': ret})
+                    if depth[0] > 0 and self.cfg.get('faulty') and \
+                            ret['k'] in ('OSError', 'OperationalError', 'StreamError', 'InterfaceError', 'ProgrammingError'):
+                        # an injected failure inside a block propagates: the block raises
+                        self.sched.emit({'ev': 'call', 'c': cid, 'op': 'txraise', 'a': {}, 'now': self.clock.tick})
+                        resume[0] = n
+                        raise ProgramAbort()
                 return i
 
             run_from(0)
@@ -225,7 +232,8 @@ class ConcRunner:
             return {'init': {'policy': self.cfg['policy'], 'cull': self.cfg['cull'],
                              'limit': self.cfg['limit'], 'stats': 1 if self.cfg['stats'] else 0,
                              'rows': init['rows'], 'ctr': init['ctr'], 'files': init['files'],
-                             'shared': 1 if self.cfg.get('shared') else 0},
+                             'shared': 1 if self.cfg.get('shared') else 0,
+                             'faulty': 1 if self.cfg.get('faulty') else 0},
                     'cfg': {k: v for k, v in self.cfg.items() if k != 'init'},
                     'nc': 2 * self.nreal, 'program': self.program, 'schedule': list(self.sched.choices), 'ev': events}
         finally:
@@ -244,8 +252,8 @@ class ConcRunner:
         envctl.rm(self.dir)
 
 
-def run_program(cfg, program, strategy, seed=0, tid=1, fault=None):
-    r = ConcRunner(cfg, program, strategy, seed, fault=fault)
+def run_program(cfg, program, strategy, seed=0, tid=1, fault=None, inject=None):
+    r = ConcRunner(cfg, program, strategy, seed, fault=fault, inject=inject)
     t = r.run()
     t['id'] = tid
     return t
